@@ -368,6 +368,7 @@ pub struct Node {
     pub rng: std::rc::Rc<std::cell::RefCell<CountRng>>,
     pub twin: Option<(F, AccumulatingRuntime<Id>)>,
     pub poisoned: bool,
+    pub peer_check: bool,
 }
 
 pub struct TraceWriter {
@@ -442,7 +443,7 @@ impl Node {
         } else {
             None
         };
-        let node = Node { idx, ncfg, foca, rng, twin, poisoned: false };
+        let node = Node { idx, ncfg, foca, rng, twin, poisoned: false, peer_check: true };
         let v = json!({
             "ev": "new", "now": now, "node": idx,
             "codec": node.ncfg.codec.name(),
@@ -563,6 +564,34 @@ impl Node {
         }
     }
 
+    /// Effect as JSON; a datagram is also handed to a scratch peer (same codec,
+    /// configuration and handler settings, identity = destination) and the
+    /// peer's verdict is recorded.
+    fn effect_json_peer(&self, e: &Effect) -> Value {
+        let mut v = effect_json(self.ncfg.codec, e);
+        if let Effect::Send { dst, data } = e {
+            if self.peer_check {
+                let snap_cfg = self.foca.verif_snapshot().config;
+                let rng = std::rc::Rc::new(std::cell::RefCell::new(CountRng::new(7)));
+                let mut peer: F = Foca::with_custom_broadcast(
+                    *dst,
+                    snap_cfg,
+                    SharedRng(rng),
+                    AnyCodec::new(self.ncfg.codec),
+                    Handler::new(self.ncfg.handler),
+                );
+                let mut rt = RecRuntime::default();
+                let r = catch_unwind(AssertUnwindSafe(|| peer.handle_data(data, &mut rt)));
+                v["peer"] = match r {
+                    Ok(Ok(())) => json!("Ok"),
+                    Ok(Err(e)) => json!(format!("Err:{}", err_kind(&e))),
+                    Err(_) => json!("Panic"),
+                };
+            }
+        }
+        v
+    }
+
     /// Performs one public call and records it.
     pub fn call(&mut self, c: &Call, tw: &mut TraceWriter, now: u64) -> Outcome {
         self.call_tagged(c, tw, now, Value::Null)
@@ -622,7 +651,7 @@ impl Node {
                 "ev": "call", "now": now, "node": self.idx,
                 "call": name, "args": args,
                 "res": res.json(),
-                "out": rt.effects.iter().map(|e| effect_json(self.ncfg.codec, e)).collect::<Vec<_>>(),
+                "out": rt.effects.iter().map(|e| self.effect_json_peer(e)).collect::<Vec<_>>(),
                 "hlog": hlog.iter().map(hlog_json).collect::<Vec<_>>(),
             });
             if let Res::Panic(m) = &res {
